@@ -46,6 +46,8 @@ OPTSETS = {
     "opaque-k": (("opaque",), "k", False, False),
     "opaque-merge": (("opaque", "inferral"), "", True, False),
     "opaque-ku": (("opaque",), "ku", False, False),
+    "drop": (("drop",), "", False, False),
+    "drop-two": (("drop", "two"), "", False, False),
     "oneway": (("oneway",), "", False, False),
     "oneway-k": (("oneway",), "k", False, False),
     "two": (("two",), "", False, False),
@@ -251,9 +253,9 @@ def std_groups(tier, dbs=("base", "forget", "forest"), opts=None, sched=True, rn
     gs = []
     if opts is None:
         opts = ["plain", "iterative", "inferral", "symmetry", "factory", "factory2", "finite", "finite-ev", "smallest", "k", "kk", "ku", "two",
-                "two-smallest", "oneway"]
+                "two-smallest", "oneway", "drop"]
         if tier == "thorough":
-            opts += ["inferral-symmetry", "inferral-factory-finite", "k-inferral", "ku-factory", "two-inferral", "two-k", "oneway-k"]
+            opts += ["inferral-symmetry", "inferral-factory-finite", "k-inferral", "ku-factory", "two-inferral", "two-k", "oneway-k", "drop-two"]
 
     def add(name, fn, shape, expect=None, weight=10, timeout=1500.0):
         g = {"name": name, "fn": fn, "shape": shape, "cond_timeout": timeout, "path_timeout": 120.0, "weight": weight}
